@@ -963,7 +963,8 @@ class ConcreteSym:
         if v == "-inf": v = -math.inf
         return v
     def int(self, name, lo=None, hi=None):
-        return int(self._get(name, lo if lo is not None else 0))
+        # a variable the model leaves open: any in-range value will do; prefer 0 (the neutral value of counters and offsets) to the lower bound
+        return int(self._get(name, 0 if (lo is None or (lo <= 0 and (hi is None or hi >= 0))) else lo))
     def real(self, name, lo=None, hi=None, denom=None):
         v = self._get(name, lo if lo is not None else 0)
         if denom: return float(fractions.Fraction(v)/denom) if not isinstance(v,float) else v/denom
